@@ -23,7 +23,7 @@ func init() {
 		ID:      "C16",
 		Level:   "exploration",
 		Workers: 16,
-		Rule: "request mutation over the real service: valid requests captured from correct clients in all states (due-to-create, due-to-subscribe, subscribed with and without pending operations) are mutated in one to three fields - unknown / foreign / empty / swapped DUID, unknown or empty key, names (unknown key, collection, client alias, key of a patch, name of a new collection) outside ASCII and longer than the server's log tags, wrong type, every combination of the seven option bits (read-only with and without operations, snapshot, delete, unsubscribe, error), checkpoints stale / future / huge / zero / absent, absent header, operations without id, operation lists with gaps, repeats, reordering, foreign client id, other era, emptied, 500 operations; unregistered / foreign-collection / administrative / empty client id, unknown / other / empty collection, no packs, duplicated packs - plus correct requests with a panic injected inside their handler's goroutine between lock acquisition and commit (hook pp.before-commit: the recovery path must answer, keep the process alive and release the key; also for ONE of the two handlers of a two-pack message, which must still be answered with both packs), plus ClientMessage, PatchMessage (invalid JSON, non-object JSON, key of another type, unknown collection), CollectionMessage and EncodingMessage (no operation, unknown operation type, undecodable body, missing id) variants. Monitors: every call is answered (watchdog classification: a handler that ended without replying is a hang; a call that returns neither a response nor an error is not an answer), a server panic is a violation, refused (RPC error or error-bit pack) => store diff empty (volatile timestamps ignored); after every hostile request a canary client syncs the same key and another key and must be answered; after an ACCEPTED hostile request the stored log must still satisfy the structural invariants of C06 (gapless up to the recorded end, nobody acknowledged beyond what is stored). One case in five ends with valid requests that are unusual only in size or repetition: one message of a correct client with 17-60 packs (creations, then a push on every datatype) must be answered pack for pack, the same client registers 40 more times, an existing collection is created 20 more times. One case in 150 runs the repository's server binary as a child process: a push-pull is held at a database write, the process receives SIGTERM (graceful stop waits for the held request) and a REST request arriving meanwhile must be answered while the shutdown is pending. Client half: every error pack the server produced in the run and the five defined push-pull error codes are applied to a subscribed client: its error handler must be called, nothing may panic, and it must complete a normal sync of another datatype afterwards; every third case also runs the client half through the SDK's own sync path (Client.Sync() over real grpc) - half of these end with a reset of the collection, after which the client's sync is refused, it registers again with Connect() and a datatype it creates must be accepted within three syncs -: a lost response, a request refused at the RPC level and an error pack for one of two datatypes, in random order - after each the next Sync() must return (watchdog classification: waiting for the client's sync semaphore while no sync is under way is a hang) and succeed, the error pack must reach an error handler, and every issued operation ends up stored exactly once; " +
+		Rule: "request mutation over the real service: valid requests captured from correct clients in all states (due-to-create, due-to-subscribe, subscribed with and without pending operations) are mutated in one to three fields - unknown / foreign / empty / swapped DUID, unknown or empty key, names (unknown key, collection, client alias, key of a patch, name of a new collection) outside ASCII and longer than the server's log tags, wrong type, every combination of the seven option bits (read-only with and without operations, snapshot, delete, unsubscribe, error), checkpoints stale / future / huge / zero / absent, absent header, operations without id, operation lists with gaps, repeats, reordering, foreign client id, other era, emptied, 500 operations; unregistered / foreign-collection / administrative / empty client id, unknown / other / empty collection, no packs, duplicated packs - plus correct requests with a panic injected inside their handler's goroutine between lock acquisition and commit (hook pp.before-commit: the recovery path must answer, keep the process alive and release the key; also for ONE of the two handlers of a two-pack message, which must still be answered with both packs), plus ClientMessage, PatchMessage (invalid JSON, non-object JSON, key of another type, unknown collection), CollectionMessage and EncodingMessage (no operation, unknown operation type, undecodable body, missing id, snapshots for a datatype type that does not exist / of another type / with foreign content) variants. Monitors: every call is answered (watchdog classification: a handler that ended without replying is a hang; a call that returns neither a response nor an error is not an answer), a server panic is a violation, refused (RPC error or error-bit pack) => store diff empty (volatile timestamps ignored); after every hostile request a canary client syncs the same key and another key and must be answered; after an ACCEPTED hostile request the stored log must still satisfy the structural invariants of C06 (gapless up to the recorded end, nobody acknowledged beyond what is stored). One case in five ends with valid requests that are unusual only in size or repetition: one message of a correct client with 17-60 packs (creations, then a push on every datatype) must be answered pack for pack, the same client registers 40 more times, an existing collection is created 20 more times. One case in 150 runs the repository's server binary as a child process: a push-pull is held at a database write, the process receives SIGTERM (graceful stop waits for the held request) and a REST request arriving meanwhile must be answered while the shutdown is pending. Client half: every error pack the server produced in the run and the five defined push-pull error codes are applied to a subscribed client: its error handler must be called, nothing may panic, and it must complete a normal sync of another datatype afterwards; every third case also runs the client half through the SDK's own sync path (Client.Sync() over real grpc) - half of these end with a reset of the collection, after which the client's sync is refused, it registers again with Connect() and a datatype it creates must be accepted within three syncs -: a lost response, a request refused at the RPC level and an error pack for one of two datatypes, in random order - after each the next Sync() must return (watchdog classification: waiting for the client's sync semaphore while no sync is under way is a hang) and succeed, the error pack must reach an error handler, and every issued operation ends up stored exactly once; " +
 			"non-trivial = the request differs from any request a correct client could send (every mutated request); distinct = hash of the mutation script",
 		Assumptions: []string{
 			"only 'answered / not answered / crashed' and 'refused => unchanged' are verdicts; whatever a canary notices after an ACCEPTED hostile request (error pack, client-side panic) is recorded as a diagnostic",
@@ -489,9 +489,18 @@ func runC16(c *core.Case) *core.Result {
 		case kind == 11:
 			// the encoding echo service (exposed over grpc and REST like the others) with
 			// well-formed but unexpected messages
-			variant := r.Intn(5)
+			variant := r.Intn(8)
 			em := &model.EncodingMessage{Type: model.TypeOfDatatype_COUNTER}
 			switch variant {
+			case 5: // a snapshot for a datatype type that does not exist
+				em.Op = &model.Operation{ID: &model.OperationID{CUID: randUID(r)}, OpType: model.TypeOfOperation_COUNTER_SNAPSHOT, Body: []byte(`{"Counter":1}`)}
+				em.Type = model.TypeOfDatatype(9 + r.Intn(50))
+			case 6: // a document snapshot whose content is not a document snapshot
+				em.Op = &model.Operation{ID: &model.OperationID{CUID: randUID(r)}, OpType: model.TypeOfOperation_DOC_SNAPSHOT, Body: []byte(`{"nm":[{"t":77,"c":"x"}],"rt":"zz","size":3}`)}
+				em.Type = model.TypeOfDatatype_DOCUMENT
+			case 7: // a list snapshot for a map
+				em.Op = &model.Operation{ID: &model.OperationID{CUID: randUID(r)}, OpType: model.TypeOfOperation_LIST_SNAPSHOT, Body: []byte(`{"Nodes":[{"O":null,"V":1}],"Size":1}`)}
+				em.Type = model.TypeOfDatatype_MAP
 			case 0: // no operation at all
 			case 1:
 				em.Op = &model.Operation{OpType: model.TypeOfOperation(9999), Body: []byte(`{}`)}
